@@ -430,6 +430,14 @@ func C08(tier string) int {
 		err := worker(&o, "C08worker", jobs[i].cs.Name, fmt.Sprint(jobs[i].bound), fmt.Sprint(left))
 		mu.Lock()
 		defer mu.Unlock()
+		if err != nil && strings.Contains(err.Error(), "HANG|") {
+			h := strings.SplitN(err.Error()[strings.Index(err.Error(), "HANG|"):], "|", 4)
+			res.Violate(fmt.Sprintf("no-return|%s|%s", h[1], h[2]), fmt.Sprintf("scenario %s: a request did not return within %v and makes no seam call (spinning in %s)", jobs[i].cs.Name, watchdog, h[2]),
+				M{"check": "C08", "scenario": jobs[i].cs.Name, "part": "hang"})
+			outs[i] = &c08res{Name: jobs[i].cs.Name, Bound: jobs[i].bound}
+			res.Exhaustive = false
+			return
+		}
 		if err != nil {
 			fmt.Fprintf(os.Stderr, "C08 worker %s: %v\n", jobs[i].cs.Name, err)
 			toolErr = true
